@@ -93,7 +93,26 @@ def stream(log, nidx, what, values, style):
     return gen()
 
 
+def lazy_choice(node, what):
+    """a state-dependent user policy: the lowest-index in-edge that can hand over an item now (what = 1) / out-edge that has room
+    now (what = 2), edge 0 if none; a pure function of the model's state"""
+    eds = node.in_edges if what == 1 else node.out_edges
+    for k, ed in enumerate(eds):
+        try:
+            if (ed.can_get() if what == 1 else ed.can_put()):
+                return k
+        except Exception:  # noqa
+            pass
+    return 0
+
+
 def sel_arg(log, nidx, what, p, style):
+    if p[0] == "LZ":
+        def choose():
+            v = lazy_choice(log.nodes[nidx], what)
+            log.lines.append("W %d %d %d" % (nidx, what, v))
+            return v
+        return choose
     if p[0] == "FA":
         return "FIRST_AVAILABLE"
     if p[0] == "RR":
@@ -109,6 +128,7 @@ def sel_arg(log, nidx, what, p, style):
 
 
 def _construct(cfg, mods, env, log, nodes, edges):
+    log.nodes = nodes
     for c in cfg["order"]:
         i = int(c[1:])
         if c[0] == "N":
@@ -208,6 +228,22 @@ def _construct(cfg, mods, env, log, nodes, edges):
                     log.lines.append("OBS %d %d cgetg 0 0" % (env.now, _i))
                 return _o(ev)
             st.reserve_put_cancel, st.reserve_get_cancel = cput, cget
+            dn, sn = cfg["nodes"][e["dst"]], cfg["nodes"][e["src"]]
+            if dn["insel"][0] == "LZ" or (sn["outsel"][0] == "LZ" and sn["kind"] == "machine"):
+                # implementation-side observation: a node with a state-dependent policy must request the edge its policy names
+                # AT THE INSTANT OF THE REQUEST (the policy is consulted when it is acted upon, not earlier)
+                org, orp = st.reserve_get, st.reserve_put
+
+                def rget(*a, _o=org, _i=i, _d=e["dst"], **kw):
+                    if cfg["nodes"][_d]["insel"][0] == "LZ" and cfg["nodes"][_d]["ins"].index(_i) != lazy_choice(nodes[_d], 1):
+                        log.lines.append("OBS %d %d stale %d 1" % (env.now, _i, _d))
+                    return _o(*a, **kw)
+
+                def rput(*a, _o=orp, _i=i, _s=e["src"], **kw):
+                    if cfg["nodes"][_s]["outsel"][0] == "LZ" and cfg["nodes"][_s]["outs"].index(_i) != lazy_choice(nodes[_s], 2):
+                        log.lines.append("OBS %d %d stale %d 2" % (env.now, _i, _s))
+                    return _o(*a, **kw)
+                st.reserve_get, st.reserve_put = rget, rput
     for (ei, s, d) in cfg["connects"]:
         edges[ei].connect(nodes[s], nodes[d])
 
@@ -513,6 +549,23 @@ def gen_config_conv_fanout(rng):
     return dict(model="factory", T=rng.choice([20, 30, 40]), nodes=nodes, edges=edges, connects=connects, order=order, model_skip=True)
 
 
+def gen_config_lazy(rng):
+    """machines whose in- / out-edge policy is a user callable that looks at the state of the model (lowest-index edge that can
+    serve now): the model has streams only, so these run on the implementation alone"""
+    for _ in range(20):
+        c = gen_config(rng, with_fleet=rng.random() < 0.2)
+        hit = False
+        for n in c["nodes"]:
+            if n["kind"] == "machine" and len(n["ins"]) > 1 and rng.random() < 0.8:
+                n["insel"], hit = ("LZ",), True
+            if n["kind"] == "machine" and len(n["outs"]) > 1 and n["blocking"] and rng.random() < 0.5:
+                n["outsel"], hit = ("LZ",), True
+        if hit:
+            break
+    c["model_skip"] = True
+    return c
+
+
 def gen_config_conv(rng):
     """a factory in which some edges are conveyors: run on the implementation only and judged by the oracle"""
     if rng.random() < 0.25:
@@ -644,6 +697,10 @@ def gen_config_sc(rng):
     if shape in ("split", "both"):
         sp = node("splitter")
         edge(last, sp)
+        if rng.random() < 0.35:
+            # a second in-edge: (empty) pallets straight from a pallet source of their own, so that the splitter has to choose
+            ps2 = node("source", pallet=True)
+            edge(ps2, sp)
         last = sp
     fan = rng.choice([1, 1, 2, 2, 3, 3])
     for _ in range(fan):
